@@ -1298,6 +1298,12 @@ fn main() {
     let mut rng = vh_common::rng(args.shard_seed(), 19);
     let flip_cap = args.get_u64("flip-cap", args.pick(1200, 12_000)) as usize;
 
+    phase_grid(&mut c, &mut rng, &args);
+    phase_vectors(&mut c, &mut rng, &args, flip_cap);
+    phase_random_strings(&mut c, &mut rng);
+    let hunt = args.get_u64("hunt-instances", args.pick(3000, 60_000));
+    hunt_embedded_duplicates(&mut c, &mut rng, hunt);
+
     // the heavy boundary set (index width 25 = the largest the crate supports; 2^25 list entries):
     // the first `heavy-shards` shards solve one such instance each
     if args.shard < args.get_u64("heavy-shards", 0) {
@@ -1318,14 +1324,9 @@ fn main() {
             solved_instance::<W512>(&mut c, &mut rng, &it, flip_cap, false);
         }
     }
-    phase_grid(&mut c, &mut rng, &args);
-    phase_vectors(&mut c, &mut rng, &args, flip_cap);
-    phase_random_strings(&mut c, &mut rng);
-    let hunt = args.get_u64("hunt-instances", args.pick(3000, 60_000));
-    hunt_embedded_duplicates(&mut c, &mut rng, hunt);
 
     // solver-backed instances until the budget or the cap is reached: (n, k, weight).
-    // Index widths 9..=21 bits (quick) / ..=23 (thorough) + 25 (heavy set below); hash outputs holding
+    // Index widths 9..=21 bits (quick) / ..=23 (thorough) + 25 (heavy sets above); hash outputs holding
     // 16, 12, 10, 9, 7, 6, 5, 4, 3, 2 and 1 n-bit strings; parameter sets where 2^(2k-2) is not small
     // against the index space yield few duplicate-free solutions and are avoided.
     let mut sets: Vec<(u32, u32, u32)> = vec![
